@@ -3,7 +3,7 @@
    verifier (Section variables generalised): H = header values, hview = policy view,
    halg = alg value, parse_header = serde, V = the JwsVerifier. *)
 From Coq Require Import List NArith ZArith Bool.
-From IdV Require Import Lib.Outcome Lib.Base64 Jose.Header Jose.Policy Jose.Jws Proofs.JwsProofs.
+From IdV Require Import Lib.Outcome Lib.Base64 Jose.Header Jose.Policy Jose.Jws Proofs.JwsProofs Jose.Jwk Jose.Verifiers Proofs.VerifiersProofs.
 Import ListNotations.
 Open Scope N_scope.
 
@@ -101,3 +101,26 @@ Print Assumptions C01_decode_enforces_policy.
 Print Assumptions C01_token_determined.
 Print Assumptions C01_bitflip_fails.
 Print Assumptions C01_general_items_agree_on_b64.
+
+(* The SHIPPED verifiers (EdDSAJwsVerifier / Ed25519Verifier, EcDSAJwsVerifier / Secp256R1Verifier / Secp256K1Verifier) around their
+   cryptographic primitives, for EVERY behaviour of the primitives (point decoding, signature parsing, the signature equation):
+   Ok exactly when the header algorithm is the verifier's, the key is of the right family (and, for EdDSA, names Ed25519), its coordinates
+   decode to 32 bytes each and to a valid point, the signature AS RECEIVED has exactly 64 bytes and the primitive accepts exactly those
+   bytes over exactly the message handed over.  So no prefix, suffix or re-encoding of the received signature is ever what gets verified. *)
+Theorem C01_eddsa_verifier_ok_iff : forall ed_point_ok ed_verify a k sg msg,
+  eddsa_jws_verify ed_point_ok ed_verify a k sg msg = None <->
+  a = AEdDSA /\ vk_family k = KOkp /\ vk_crv k = ED25519
+  /\ exists pk, b64u_decode (vk_x k) = Some pk /\ length pk = 32%nat /\ ed_point_ok pk = true
+     /\ length sg = 64%nat /\ ed_verify pk sg msg = true.
+Proof. exact eddsa_ok_iff. Qed.
+Theorem C01_ecdsa_verifier_ok_iff : forall ec_point_ok ec_sig_ok ec_verify a k sg msg,
+  ecdsa_jws_verify ec_point_ok ec_sig_ok ec_verify a k sg msg = None <->
+  exists k1 : bool, a = (if k1 then AES256K else AES256) /\ vk_family k = KEc
+  /\ exists x y, b64u_decode (vk_x k) = Some x /\ b64u_decode (vk_y k) = Some y /\ length x = 32%nat /\ length y = 32%nat
+     /\ ec_point_ok k1 (x ++ y) = true /\ length sg = 64%nat /\ ec_sig_ok k1 sg = true /\ ec_verify k1 (x ++ y) sg msg = true.
+Proof. exact ecdsa_ok_iff. Qed.
+Theorem C01_eddsa_signature_length_exact : forall ed_point_ok ed_verify a k sg msg, length sg <> 64%nat -> eddsa_jws_verify ed_point_ok ed_verify a k sg msg <> None.
+Proof. exact eddsa_length_exact. Qed.
+Print Assumptions C01_eddsa_verifier_ok_iff.
+Print Assumptions C01_ecdsa_verifier_ok_iff.
+Print Assumptions C01_eddsa_signature_length_exact.
